@@ -148,6 +148,46 @@ def planted_cases(rng: random.Random, n: int) -> List[Any]:
     return out
 
 
+def balanced_cases(rng: random.Random, n: int) -> List[Any]:
+    """Random internal reactions with a random flow, balanced by construction with one source or sink reaction per
+    species that is left over: many active reactions, catalytic and interleaved steps, mostly realizable but only
+    in some firing orders (the search has to come back to a marking through another transition)."""
+    out = []
+    species = ["A", "B", "C", "D"]
+    while len(out) < n:
+        rx = []
+        for _ in range(rng.randint(2, 5)):
+            l = {s: 1 for s in rng.sample(species, rng.randint(0, 2))}
+            r = {s: 1 for s in rng.sample(species, rng.randint(0, 2))}
+            if l != r:
+                rx.append((l, r, rng.randint(0, 2)))
+        if len(rx) < 2:
+            continue
+        net_change = {s: 0 for s in species}
+        for l, r, f in rx:
+            for x in l:
+                net_change[x] -= f
+            for x in r:
+                net_change[x] += f
+        for x in species:
+            if net_change[x] > 0:
+                rx.append(({x: 1}, {}, net_change[x]))
+            elif net_change[x] < 0:
+                rx.append(({}, {x: 1}, -net_change[x]))
+        if not any(f for _, _, f in rx):
+            continue
+        rng.shuffle(rx)
+        seen, uniq = set(), []
+        for l, r, f in rx:                      # the abstract networks are sets of reactions
+            k = (tuple(sorted(l.items())), tuple(sorted(r.items())))
+            if k not in seen:
+                seen.add(k)
+                uniq.append((l, r, f))
+        net = crnlib.norm_net({"rx": [{"id": f"r_{j+1}", "rule": "r", "l": l, "r": r} for j, (l, r, _) in enumerate(uniq)]})
+        out.append({"net": net, "flow": [f for _, _, f in uniq]})
+    return out
+
+
 def fire_inputs(rng: random.Random, n: int) -> List[Any]:
     out = []
     names = ["A", "B", "C", "D"]
@@ -186,10 +226,10 @@ def run(ctx: core.Ctx) -> None:
     if q:
         allflows = ctx.rng.sample(allflows, 4000)
     core.run_stage(ctx, S("realizability-exhaustive-unit-rx2", real_case, allflows, "total flow >= 2"))
-    rnd = rand_flow_cases(ctx.rng, 600 if q else 15000) + planted_cases(ctx.rng, 400 if q else 8000)
+    rnd = rand_flow_cases(ctx.rng, 600 if q else 15000) + planted_cases(ctx.rng, 400 if q else 8000) + balanced_cases(ctx.rng, 800 if q else 15000)
     core.run_stage(ctx, S("realizability-random", real_case, rnd, "total flow >= 2"))
     hist = []
-    for c in rnd[: (500 if q else 6000)]:
+    for c in ctx.rng.sample(rnd, min(len(rnd), 500 if q else 6000)):
         if len(c["net"]["sp"]) <= 5:
             pre = [ctx.rng.choice(["konig", "scaled", "borrow", "real"]) for _ in range(ctx.rng.randint(1, 3))]
             hist.append({"net": c["net"], "flow": c["flow"], "pre": pre})
